@@ -781,7 +781,7 @@ class Doer(tyming.Tymee):
         except GeneratorExit:  # close context, forced exit due to .close on generator
             self.cease()
 
-        except (Exception, KeyboardInterrupt) as ex:  # abort context, forced exit due to uncaught exception or SIGINT
+        except BaseException as ex:  # abort context, forced exit due to uncaught exception, SIGINT or sys.exit()
             self.abort(ex=ex)
             raise
 
@@ -1214,7 +1214,7 @@ class DoDoer(Doer):
         except GeneratorExit:  # cease context, forced exit due to generator.close()
             self.cease()
 
-        except (Exception, KeyboardInterrupt) as ex:  # abort context, forced exit due to uncaught exception or SIGINT
+        except BaseException as ex:  # abort context, forced exit due to uncaught exception, SIGINT or sys.exit()
             self.abort(ex=ex)
             raise
 
